@@ -22,13 +22,13 @@ SCENARIOS = [      # (script, events, failing handlers, handlers that call stop(
     (["start", "stop"], 1, [], []),
     (["start", "stop", "start"], 2, [1], []),
     (["start", "start"], 2, [], [1]),
-    (["start", "stop", "start", "stop"], 2, [1], []),
+    (["start", "stop", "start", "stop"], 3, [1], []),
     (["stop", "start", "start"], 1, [], []),
     (["start", "stop", "start"], 3, [], [2]),
     (["start", "start", "stop"], 2, [], []),
 ]
-STRICT = ["NoStuckState", "NoLostStart", "EndedFinal", "ThreadGoneAfterEnd", "RefusedWroteNothing"]
-KNOWN = ["NoStuckStateK", "NoLostStartK", "EndedFinalK", "ThreadGoneK", "RefusedWroteNothing"]
+STRICT = ["NoStuckState", "NoLostStart", "EndedFinal", "ThreadGoneAfterEnd", "RefusedWroteNothing", "StopEffective"]
+KNOWN = ["NoStuckStateK", "NoLostStartK", "EndedFinalK", "ThreadGoneK", "RefusedWroteNothing", "StopEffectiveK"]
 
 
 def consts(script, nev, faulty, stoppers=(), fixes=(), anyto=False):
@@ -104,6 +104,17 @@ def observables(ctx, sc, label, case):
             refused_in_handler = not accepted and any(e["t"] == "w" and e["k"] == "R" and e["v"] == "rs" and e["x"] not in ("STARTED", "STARTING") for e in seg[:2])
             if any(e["t"] == "w" and e["k"] == "exec" for e in seg) and not refused_in_handler:
                 probs.append(("stop_from_handler_ignored", f"the handler of event {d['x']} called stop() but the run thread went on executing events in the same segment"))
+    # an accepted stop() takes effect: after the caller's STOPPING write the run thread finishes at most the event in progress
+    for k0, d in enumerate(log):
+        if d["t"] == "c" and d["k"] == "W" and d["v"] == "rs" and d["x"] == "STOPPING":
+            nexec = 0
+            for e in log[k0 + 1:]:
+                if e["t"] == "w" and e["k"] == "W" and e["v"] == "rs" and e["x"] in ("STOPPED", "ENDED"):
+                    break
+                if e["t"] == "w" and e["k"] == "exec":
+                    nexec += 1
+            if nexec > 1:
+                probs.append(("stop_lost", f"stop() wrote STOPPING but the run thread executed {nexec} more events before parking"))
     for key, detail in probs:
         k = None
         if "race|late_stopping_write" in sig and key in ("stuck_state", "ended_not_final"):
@@ -251,7 +262,7 @@ def overlap_layer(ctx: Ctx):
             tc = dict(c)
             mod = ("---- MODULE TraceSimThreads_gen ----\nEXTENDS TraceSimThreads\n" + "\n".join(f"c_{k} == {v}" for k, v in tc.items()) + "\n====\n")
             cfgt = ("SPECIFICATION TraceSpec\nCONSTANTS\n" + "\n".join(f"  {k} <- c_{k}" for k in tc) +
-                    "\nCONSTRAINT Progress\nPOSTCONDITION Post\n" + "\n".join(f"INVARIANT {i}" for i in ("InvNoStuckStateK", "InvNoLostStartK", "InvEndedFinalK", "InvThreadGoneK", "InvRefused")) +
+                    "\nCONSTRAINT Progress\nPOSTCONDITION Post\n" + "\n".join(f"INVARIANT {i}" for i in ("InvNoStuckStateK", "InvNoLostStartK", "InvEndedFinalK", "InvThreadGoneK", "InvRefused", "InvStopEffectiveK")) +
                     "\nCHECK_DEADLOCK FALSE\n")
             rej, st = traces.validate("TraceSimThreads_gen", "TraceSimThreads_gen.cfg", trs, extra_files={"TraceSimThreads_gen.tla": mod, "TraceSimThreads_gen.cfg": cfgt},
                                       timeout=1800, deque=True)
